@@ -1074,8 +1074,65 @@ def early_close_witness(res, drv):
         peer2.close()
 
 
+def disable_in_handler_case(res):
+    """The application takes the endpoint down from inside one of the protocol's own callbacks: a `communicating` handler (it runs on the
+    dispatcher thread, inside the select transition of the connection state machine) calls `disable()`.  `disable()` has to return, the
+    endpoint has to be NOT_CONNECTED, and after `enable()` a new connection has to select."""
+    case = {"kind": "tcp-disable-in-handler", "handler": "communicating"}
+    res.count(("tcp-disable-in-handler",), sample={"op": "real sockets: disable() called from the `communicating` handler", **case})
+    res.bump("tcp_cases", "disable in handler")
+    port = free_port()
+    p = secsgem.hsms.HsmsProtocol(secsgem.hsms.HsmsSettings(address="127.0.0.1", port=port, connect_mode=secsgem.hsms.HsmsConnectMode.PASSIVE))
+    refuse = [True]
+    returned = threading.Event()
+
+    def on_communicating(_data):
+        if refuse[0]:
+            p.disable()
+            returned.set()
+    p.events.communicating += on_communicating
+    if not call_bounded(p.enable, 5):
+        res.violate("c09-enable-hang", "enable() did not return within 5 s", case)
+        return
+    peer = connect_peer(port)
+    if peer is None:
+        res.violate("c09-no-listen", "passive endpoint does not accept a connection within 3 s of enable()", case)
+        call_bounded(p.disable, 5)
+        return
+    peer.sendall(SELECT_REQ(4646))
+    got = read_frames(peer, 1, 3.0)
+    if not (got and got[0].header.s_type.value == 2):
+        res.violate("c09-reselect", "Select.req not answered", case, "Select.rsp", [(b.header.s_type.value, b.header.system) for b in got])
+    if not M.wait_event(returned, 8):
+        res.violate("c09-disable-hang", "disable() called from the `communicating` handler did not return (the connection's teardown needs the "
+                    "state machine the handler is running inside)", case, "returns", diag(p))
+        return
+    if not M.wait_until(lambda: p.connection_state.current == ConnectionState.NOT_CONNECTED and torn_down(p), 5.0):
+        res.violate("c09-state", "not NOT_CONNECTED / not torn down after disable() from the handler", case, "NOT_CONNECTED", diag(p))
+    peer.close()
+    refuse[0] = False
+    if not call_bounded(p.enable, 5):
+        res.violate("c09-enable-hang", "enable() after the disable() from the handler did not return within 5 s", case)
+        return
+    peer2 = connect_peer(port, tries=80)
+    if peer2 is None:
+        res.violate("c09-no-reconnect", "after disable() from a handler and enable(): no new connection is accepted", case)
+    else:
+        ok, got = select_on(peer2, p, 4747)
+        if not ok:
+            res.violate("c09-reselect", "after disable() from a handler and enable(): the new connection does not select", case,
+                        "Select.rsp(4747)", [(b.header.s_type.value, b.header.system) for b in got])
+        peer2.close()
+        M.wait_until(lambda: p.connection_state.current == ConnectionState.NOT_CONNECTED and torn_down(p), 8.0)
+    if not call_bounded(p.disable, 8):
+        res.violate("c09-disable-hang", "final disable() did not return within 8 s", case, "returns", diag(p))
+
+
 def tcp_part(res, rng, drv, big):
     f13_witness(res, drv)
+    disable_in_handler_case(res)
+    # the active side loses an ESTABLISHED connection (peer cut mid-frame) and has to connect and select again after T5
+    tcp_active_case(res, LINKTEST_REQ(31) + DATA(32, 1, 13, True, b"\x01\x02\x03"), 7, 1)
     early_close_witness(res, drv)
     abortive_close_case(res, False)
     abortive_close_case(res, True)
